@@ -59,7 +59,7 @@ def _eval(case):
             os.chdir(proj.path())
             try:
                 for (xx, ext) in case["configs"]:
-                    kw = sc.kw_for(("G", ("*__pycache__*",)), xx, None, ext)
+                    kw = sc.kw_for(("G", case.get("fex", ("*__pycache__*",))), xx, None, ext)
                     try:
                         res.append(sc.snapshot_str(*graph_snapshot(get_evaluable_architecture(root, mp, **kw))))
                     except Exception as e:  # noqa: BLE001
@@ -68,7 +68,7 @@ def _eval(case):
                 os.chdir(cwd)
             return res, base
         for (xx, ext) in case["configs"]:
-            kw = sc.kw_for(("G", ("*__pycache__*",)), xx, None, ext)
+            kw = sc.kw_for(("G", case.get("fex", ("*__pycache__*",))), xx, None, ext)
             if case.get("explicit_empty") and not xx and ext[1]:
                 # the other kind of external pattern passed explicitly as an empty tuple: it says nothing and changes nothing
                 kw["regex_external_exclusions" if ext[0] == "G" else "external_exclusions"] = ()
@@ -83,7 +83,7 @@ def judge(ctx, stream, cases):
     lines = []
     for case, (res, base) in zip(cases, out):
         for (xx, ext) in case["configs"]:
-            lines.append(sc.model_scan(base, case["tree"], case["root"], case["mp"], exclude_external=xx, ext=ext))
+            lines.append(sc.model_scan(base, case["tree"], case["root"], case["mp"], exclusions=("G", case.get("fex", ("*__pycache__*",))), exclude_external=xx, ext=ext))
     ans = run_driver(lines)
     k = 0
     for case, (res, base) in zip(cases, out):
@@ -172,7 +172,10 @@ def stream_cases(ctx: Ctx, s, n, rng):
                 # an inline flag concerns the pattern it is written in, not its neighbours
                 r = (rng.choice(["(?i)os$", "(?i)ext"]), rng.choice(["extra", r"ext\.lib"]))
             configs.append((False, ("R", r)))
-            cases.append({"tree": tree, "root": "proj", "mp": mp, "configs": configs, "relative": rng.random() < 0.25, "explicit_empty": rng.random() < 0.3})
+            cases.append({"tree": tree, "root": "proj", "mp": mp, "configs": configs, "relative": rng.random() < 0.25, "explicit_empty": rng.random() < 0.3,
+                          # a FILE exclusion pattern that can only match dotted library names (no path contains such text): it concerns
+                          # files and directories, the external part of the architecture does not change
+                          "fex": ("*__pycache__*", rng.choice(["*ext.lib*", "*os.pa*", "*b.cd*", "*j_ext.m*"])) if rng.random() < 0.3 else ("*__pycache__*",)})
         judge(ctx, s, cases)
         done += len(cases)
 
